@@ -172,3 +172,67 @@ contract(
     },
     raises=[("Exception", "False", "only_if")],
 )
+
+# ---------------------------------------------------------------------------------------------
+# _build_face_face_connectivity(grid)                                                   (C03)
+# row f lists the face on the other side of each interior edge of f - EXACTLY once per shared edge.
+# Proved with a ghost witness table wit[f][t] = the edge that put entry t into row f: wit is injective per row and
+# covers every interior edge incident to f, so positions of row f and interior edges of f are in bijection.
+# ---------------------------------------------------------------------------------------------
+_EF = "entry(grid._ds, 'edge_face_connectivity').data"
+_INT = f"({_EF}[{{e}}, 0] != FILL and {_EF}[{{e}}, 1] != FILL)"          # interior edge: a real face on both sides
+
+
+def _ff_wit(upto):
+    """every entry of every row has its witness edge among the edges processed so far, and names the face across it"""
+    w = "wit[f][t]"
+    return (f"forall(0, n_face, lambda f: len(wit[f]) == len(face_neighbors[f]) and 0 <= len(wit[f]) and "
+            f"forall(0, len(wit[f]), lambda t: 0 <= {w} and {w} < {upto} and {_INT.format(e=w)} and "
+            f"(({_EF}[{w}, 0] == f and face_neighbors[f][t] == {_EF}[{w}, 1]) or "
+            f"({_EF}[{w}, 1] == f and face_neighbors[f][t] == {_EF}[{w}, 0])), pattern=lambda t: [{w}, face_neighbors[f][t]]))")
+
+
+_FF_INJ = ("forall(0, n_face, lambda f: forall(0, len(wit[f]), 0, len(wit[f]), lambda t, u: implies(t < u, wit[f][t] != wit[f][u]), "
+           "pattern=lambda t, u: (wit[f][t], wit[f][u])))")
+
+
+def _ff_cover(upto):
+    """every interior edge processed so far is the witness of one entry in the row of each of its two faces"""
+    return (f"forall(0, {upto}, lambda e: implies({_INT.format(e='e')}, "
+            f"exists(0, len(wit[{_EF}[e, 0]]), lambda t: wit[{_EF}[e, 0]][t] == e, pattern=lambda t: wit[{_EF}[e, 0]][t]) and "
+            f"exists(0, len(wit[{_EF}[e, 1]]), lambda t: wit[{_EF}[e, 1]][t] == e, pattern=lambda t: wit[{_EF}[e, 1]][t])), "
+            f"pattern=lambda e: {_EF}[e, 0])")
+
+
+contract(
+    "uxarray.grid.connectivity._build_face_face_connectivity", props=["C03"],
+    sizes=["n_face", "n_edge", "W"],
+    params={"grid": "obj('Grid', sizes={'n_face': 'n_face', 'n_edge': 'n_edge'}, "
+                    "tables={'edge_face_connectivity': 'arr(int, n_edge, 2)', 'face_edge_connectivity': 'arr(int, n_face, W)'})"},
+    requires=[
+        # edge_face_connectivity in standard form: a real face or FILL on each side, never the same face on both sides
+        f"forall(0, n_edge, 0, 2, lambda e, s: {_EF}[e, s] == FILL or (0 <= {_EF}[e, s] and {_EF}[e, s] < n_face))",
+        f"forall(0, n_edge, lambda e: implies({_INT.format(e='e')}, {_EF}[e, 0] != {_EF}[e, 1]))",
+        # a face has at most n_max_face_edges (= W) interior edges: stated through the number of edges listing it
+        "forall(0, n_face, lambda f: inc(f, n_edge) <= W)",
+    ],
+    returns="arr(int, n_face, W)",
+    ensures=["shape(result) == (n_face, W)",
+             # row f: the faces across the interior edges of f, once per edge (positions <-> interior edges of f, via the witnesses),
+             # padded at the end only
+             "forall(0, n_face, 0, W, lambda f, t: implies(t < inc(f, n_edge), result[f, t] != FILL), pattern=lambda f, t: result[f, t])",
+             "forall(0, n_face, 0, W, lambda f, t: implies(t >= inc(f, n_edge), result[f, t] == FILL), pattern=lambda f, t: result[f, t])",
+             f"forall(0, n_edge, lambda e: implies({_INT.format(e='e')}, "
+             f"exists(0, W, lambda t: result[{_EF}[e, 0], t] == {_EF}[e, 1]) and exists(0, W, lambda t: result[{_EF}[e, 1], t] == {_EF}[e, 0])))"],
+    loops={0: loop(counter="k", invariants=[_ff_wit("k"), _FF_INJ, _ff_cover("k"),
+                                            "forall(0, n_face, lambda f: len(wit[f]) == inc(f, k))"],
+                   ghost_init=["let wit = listmap(n_face)"])},
+    finite_sizes=[{"n_face": 2, "n_edge": 2, "W": 2}, {"n_face": 3, "n_edge": 3, "W": 2}],
+    asserts={"after:face_neighbors[face1].append(face2)": ["append wit, face1, k"],
+             "after:face_neighbors[face2].append(face1)": ["append wit, face2, k"]},
+    options={"callee_variants": {"uxarray.grid.grid.Grid.face_node_connectivity": "ds_view"},
+             # inc(f, k): number of interior edges among the first k that have face f on one side
+             "recdefs": [("inc", ["f", "k"], f"ite(k <= 0, 0, inc(f, k - 1) + ite({_INT.format(e='k - 1')} and "
+                                               f"({_EF}[k - 1, 0] == f or {_EF}[k - 1, 1] == f), 1, 0))")]},
+    raises=[("Exception", "False", "only_if")],
+)
